@@ -559,6 +559,8 @@ for _up in (True, False):
                      "... and a reduced offset determines its bin; with post.cyclic_bracket / cyclic_successor_never_clipped (and the periodic "
                      "weights' post.fraction) such targets therefore get identical indices and weights")]
 CONTRACTS = [wrapped_difference, enclosing_periodic, weights_periodic, interpolate_periodic, ndp_linear, ndp_nearest]
+import contracts.C14_wiring as _W          # dataset.py / dataarray.py / dataframe.py / geometry.py wiring above the kernels
+CONTRACTS = CONTRACTS + _W.CONTRACTS
 import contracts.C14_bounded as _B
 BOUNDED = [Bounded("angular_data_unit_vector_average", _B.angular_data,
                    "NdInterpolator._periodic_data_interpolator through interpolate_dataset_along_axis (complex exponentials are outside the executor's subset)"),
@@ -573,8 +575,15 @@ TRUSTED = ["infinite values are outside the model: every non-NaN float of these 
            "period fixed to 360 in the periodic instances (the only period the repository uses); symbolic periods make the modulo nonlinear",
            "preconditions taken from the code: periodic grid strictly monotone within one period; for the periodic weights every cyclic bin shorter than half a period",
            "interpolate_periodic: x not periodic (the only way the repository calls it), xp strictly increasing (time axes)",
-           "NdInterpolator._periodic_data_interpolator (complex exponentials), dataset.py / dataframe.py / geometry.py / dataarray.py wiring: bounded only"]
+           "NdInterpolator._periodic_data_interpolator (complex exponentials: the unit-vector average of angular data), dataframe.py, geometry.py (Track.interpolate) and "
+           "dataset.py::interpolate_dataset (pandas / geometry objects): bounded only",
+           "wiring contracts (C14_wiring.py): xarray model entries as in C13 plus Dataset.dims (mapping dimension -> length), Dataset(coords=...), DataArray[coordinate name]; "
+           "interpolate_track_data_arrray's interpolator call and interpolate_at_points' per-variable call are uninterpreted (arguments recorded)"]
 EXPLANATION = ("proved for all lengths and values: wrapped_difference (range [D-P,D), congruence, fixed points, NaN), enclosing_points_1d with a period (cyclic successor never "
                "clipped, reduced target in its cyclic bin incl. the wrap bin, uniqueness), periodic interpolation_weights_1d (fraction of the cyclic bin, in [0,1)), "
                "interpolate_periodic as the repository calls it (shorter arc, range, nodes, ends), NdInterpolator.interpolate along a periodic coordinate by composition "
-               "of the verified contracts; spec lemmas: targets a multiple of 360 apart have the same reduced offset and the same bin, hence identical indices, weights, results")
+               "of the verified contracts; spec lemmas: targets a multiple of 360 apart have the same reduced offset and the same bin, hence identical indices, weights, results; "
+               "wiring: interpolate_dataset_along_axis along `direction` / `longitude` (periodic by default, period 360) with the periodic-coordinate kernel contract as callee contract (plain kernel when the "
+               "caller declares the coordinate non-periodic); which variables are angular ((360,360) for *direction* names, (360,180) for longitude, or the caller's mapping) is proved in C13/C14 "
+               "`wiring.periodic_data_default_or_callers`; interpolate_at_points hands each variable its own (period, discontinuity) from the caller's mapping and the periodic coordinates; "
+               "interpolate_track_data_arrray builds the interpolator with the array's own coordinates, the track's coordinates, the caller's periodic coordinates / data period / discontinuity")
